@@ -357,43 +357,50 @@ theorem sps_total (signedOffsets : Bool) (nalu : Bytes) :
 /-- **picture size** (strongest variant for arbitrary traces): the parser's width/height is the standard's derivation
     whenever the trace does not combine separate_colour_plane_flag = 1 with chroma format 1 or 2 -/
 theorem dims_eq_std_partial (t : Trace) (hf : t.nat "frame_mbs_only_flag" ≤ 1)
-    (hsep : t.get "separate_colour_plane_flag" = 1 → chromaFormat t ≠ 1 ∧ chromaFormat t ≠ 2) :
+    (hsep : t.get "separate_colour_plane_flag" = 1 → chromaFormat t ≠ 1 ∧ chromaFormat t ≠ 2)
+    (hfit : CropFits t) :
     dims t = stdDims t := by
+  have hW : W64 = 18446744073709551616 := by decide
+  unfold CropFits at hfit
   unfold dims stdDims
   generalize chromaFormat t = c at hsep ⊢
-  generalize t.nat "frame_mbs_only_flag" = fmo at hf ⊢
-  generalize t.nat "pic_width_in_mbs_minus1" = w
-  generalize t.nat "pic_height_in_map_units_minus1" = h
-  generalize t.nat "frame_crop_left_offset" = cl
-  generalize t.nat "frame_crop_right_offset" = cr
-  generalize t.nat "frame_crop_top_offset" = ct
-  generalize t.nat "frame_crop_bottom_offset" = cb
+  generalize t.nat "frame_mbs_only_flag" = fmo at hf hfit ⊢
+  generalize t.nat "pic_width_in_mbs_minus1" = w at hfit ⊢
+  generalize t.nat "pic_height_in_map_units_minus1" = h at hfit ⊢
+  generalize t.nat "frame_crop_left_offset" = cl at hfit ⊢
+  generalize t.nat "frame_crop_right_offset" = cr at hfit ⊢
+  generalize t.nat "frame_crop_top_offset" = ct at hfit ⊢
+  generalize t.nat "frame_crop_bottom_offset" = cb at hfit ⊢
+  generalize W64 = W at hW hfit ⊢
+  subst hW
   have hfm : fmo = 0 ∨ fmo = 1 := by omega
   by_cases hc : t.get "frame_cropping_flag" = 1
-  · simp only [hc, if_true]
+  · simp only [hc, if_true, true_implies] at hfit ⊢
+    obtain ⟨h1, h2, h3, h4⟩ := hfit
     by_cases hs : t.get "separate_colour_plane_flag" = 1
     · have := hsep hs
       match c, this with
-      | 0, _ => rcases hfm with rfl | rfl <;> simp [hs, Nat.mul_comm] <;> omega
-      | 3, _ => rcases hfm with rfl | rfl <;> simp [hs, Nat.mul_comm] <;> omega
+      | 0, _ => rcases hfm with rfl | rfl <;> simp [hs] <;> omega
+      | 3, _ => rcases hfm with rfl | rfl <;> simp [hs] <;> omega
       | n + 4, _ => simp
     · match c with
-      | 0 => rcases hfm with rfl | rfl <;> simp [hs, Nat.mul_comm] <;> omega
-      | 1 => rcases hfm with rfl | rfl <;> simp [hs, Nat.mul_comm] <;> omega
-      | 2 => rcases hfm with rfl | rfl <;> simp [hs, Nat.mul_comm] <;> omega
-      | 3 => rcases hfm with rfl | rfl <;> simp [hs, Nat.mul_comm] <;> omega
+      | 0 => rcases hfm with rfl | rfl <;> simp [hs] <;> omega
+      | 1 => rcases hfm with rfl | rfl <;> simp [hs] <;> omega
+      | 2 => rcases hfm with rfl | rfl <;> simp [hs] <;> omega
+      | 3 => rcases hfm with rfl | rfl <;> simp [hs] <;> omega
       | n + 4 => simp
-  · simp only [hc, if_false]
+  · simp only [hc, if_false] at hfit ⊢
+    obtain ⟨h1, h2, -⟩ := hfit
     rcases hfm with rfl | rfl <;> simp <;> omega
 
 /-- picture size for every valid SPS (statement as before) -/
-theorem dims_eq_std_sps (signedOffsets : Bool) (f : Nat) (tr : Trace) (h : TraceOK f (sps signedOffsets) tr) :
-    dims tr = stdDims tr := by
+theorem dims_eq_std_sps (signedOffsets : Bool) (f : Nat) (tr : Trace) (h : TraceOK f (sps signedOffsets) tr)
+    (hfit : CropFits tr) : dims tr = stdDims tr := by
   obtain ⟨⟨os, a, hops, _⟩, _⟩ := h
   obtain ⟨used, hu1, hu2⟩ := ops_trace f _ [] tr os a [] hops
   have ha : tr = a := by simp at hu1 hu2; rw [hu2, hu1]
   subst ha
-  refine dims_eq_std_partial tr (sps_trace_fmo _ _ _ _ _ hops) ?_
+  refine dims_eq_std_partial tr (sps_trace_fmo _ _ _ _ _ hops) ?_ hfit
   intro hs
   rw [sps_trace_sep _ _ _ _ _ hops hs]
   decide
